@@ -156,11 +156,13 @@ Section Par1Facts.
     - apply pres_refl.
     - pose proof (io_read_pres (volume_path ix (N.of_nat (S i))) st) as P.
       destruct (io_read (volume_path ix (N.of_nat (S i))) st) as [[b|x|q] st1]; cbn [snd] in P.
-      + destruct (read_volume md5 b) as [v|x|q]; try (cbn [snd]; exact P).
-        repeat lazymatch goal with
-               | |- pres _ (snd (if ?c then _ else _)) => destruct c; [cbn [snd]; exact P|]
-               end.
-        eapply pres_trans; [exact P|apply IH].
+      + destruct (read_volume md5 b) as [v|x|q]; [| |cbn [snd]; exact P].
+        * repeat lazymatch goal with
+                 | |- pres _ (snd (if ?c then _ else _)) => destruct c; [cbn [snd]; exact P|]
+                 end.
+          eapply pres_trans; [exact P|apply IH].
+        * (* an unparsable volume is skipped *)
+          eapply pres_trans; [exact P|apply IH].
       + destruct x; try (cbn [snd]; exact P). eapply pres_trans; [exact P|apply IH].
       + cbn [snd]. exact P.
   Qed.
@@ -490,6 +492,13 @@ Section Par1Facts.
     rewrite Fsh', Fnum, (le_decode_encode8 _ Hnum).
     repeat split; reflexivity.
   Qed.
+  (** * E. a present but unparsable volume is unusable, like a missing one *)
+  Lemma load_vols_unparsable_is_unusable ix sethash i n' size acc st b st1 x :
+    io_read (volume_path ix (N.of_nat (S i))) st = (Ok b, st1) -> read_volume md5 b = Err x ->
+    load_vols md5 ix sethash i (S n') size acc st = load_vols md5 ix sethash (S i) n' size (acc ++ [None]) st1.
+  Proof.
+    intros Hread Hvol. cbn [load_vols]. rewrite Hread, Hvol. reflexivity.
+  Qed.
 End Par1Facts.
 
 Print Assumptions p1_load_fs.
@@ -498,3 +507,4 @@ Print Assumptions par1_verify_no_write.
 Print Assumptions par1_repair_writes.
 Print Assumptions par1_verify_clean_intact.
 Print Assumptions volume_round_trip.
+Print Assumptions load_vols_unparsable_is_unusable.
